@@ -541,6 +541,11 @@ def seq_method(interp, recv, name, args, kwargs):
     if not sym:
         return getattr(recv, name)(*args, **kwargs)
     kind = kind_of(recv)
+    hook = getattr(interp, "calls", {}).get("%s.%s" % (kind, name))
+    if hook is not None:  # a contract-level library axiom for this method (listed in its trusted base)
+        r = hook(interp, recv, *args, **kwargs)
+        if r is not NotImplemented:
+            return r
     t = seq_term(recv)
     n = z3.Length(t)
     if name == "startswith":
